@@ -115,6 +115,12 @@ func (b *Box) Stop() {
 }
 
 func (b *Box) HandleMessage(msg *IncMessage) {
+	// Topics are always SHA256 digests
+	if len(msg.Topic) != 32 {
+		b.Logger.Warnf("received message from %d with a topic of %d bytes, dropping it", msg.Source, len(msg.Topic))
+		return
+	}
+
 	switch msg.MsgType {
 	case uint8(MsgTypeMPC):
 		b.storeOrForward(msg)
